@@ -815,3 +815,62 @@ def lib(tier="quick"):
                                               tag=f"{nmods}/{ret}/{twice}/{collide}/{alias_a}/{flags}/{pattern}", V=[0, 1, 2], K=12, T=2, cap=48))
                                 n += 1
     return out
+
+
+# ----------------------------------------------------------------------------
+# DEAD: compile-time constant tests (dead-branch pruning must only drop effect-free code) -- C01, C07
+
+def dead(tier="quick"):
+    out = []
+    n = 0
+    flags = [("K = 0\n", "K", False), ("K = 1\n", "K", True), ("", "False", False), ("", "True", True), ("K = 2 > 1\n", "K", True), ("K = 3 - 3\n", "K", False), ("A = 2\nK = A * 2 == 5\n", "K", False)]
+    fdefs = "def only(a):\n    db.On = a\n    d1.Setting = a + 1\n"          # called only from the guarded branch
+    fboth = "def both(b):\n    db.Mode = b\n"                                   # called from guarded branch and elsewhere
+    fret = "def val(c):\n    db.Lock = c\n    return c * 2\n"
+    shapes = {
+        "if": "if {T}:\n    {A}\n",
+        "ifelse": "if {T}:\n    {A}\nelse:\n    {B}\n",
+        "ifnot": "if not {T}:\n    {A}\nelse:\n    {B}\n",
+        "and": "if {T} and x > 1:\n    {A}\nelse:\n    {B}\n",
+        "nested": "if x > 1:\n    if {T}:\n        {A}\n    db.Open = 1\n",
+        "elif": "if x > 2:\n    db.Open = 2\nelif {T}:\n    {A}\nelse:\n    {B}\n",
+        "ternary": "db.Setting = val(1) if {T} else 9\n",
+        "while": "while {T}:\n    {A}\n    break\n",
+    }
+    acts = {"write": ("db.Setting = x + 1", "db.Setting = x + 2"), "only": ("only(x)", "db.Setting = 3"), "onlyelse": ("db.Setting = 4", "only(x)"), "both": ("both(x)", "both(7)"), "val": ("db.Setting = val(x)", "db.Setting = 8")}
+    for (pre, T, truth) in flags:
+        for sn, sh in shapes.items():
+            for an, (A, B) in acts.items():
+                if sn == "ternary" and an != "val":
+                    continue
+                if tier == "quick" and (n % 2) and an in ("write", "both"):
+                    n += 1
+                    continue
+                body = sh.format(T=T, A=A, B=B)
+                # which of A / B can run?  (the harness knows the truth value of the flag)
+                liveA = {"if": truth, "ifelse": truth, "ifnot": not truth, "and": True, "nested": truth, "elif": truth, "ternary": True, "while": truth}[sn]
+                liveB = {"if": False, "ifelse": not truth, "ifnot": truth, "and": True, "nested": False, "elif": not truth, "ternary": False, "while": False}[sn]
+                live_call = (liveA and "(" in A.split("=")[-1] and any(f in A for f in ("only(", "both(", "val("))) or (liveB and any(f in B for f in ("only(", "both(", "val("))) or ("both(" in A + B)
+                defs = ""
+                if "only(" in body:
+                    defs += fdefs
+                if "both(" in body:
+                    defs += fboth
+                if "val(" in body:
+                    defs += fret
+                tail = "both(5)\n" if "both(" in body else ""
+                # (1) endless main: no interaction with finding F-07
+                main = "x = d0.Setting\n" + body + tail + "yield_()\n"
+                src = defs + pre + "while True:\n" + ind(main)
+                fam = "W-F01j" if sn == "ternary" else "DEAD"  # a conditional expression evaluates both arms (finding F-01j)
+                out.append(mk(fam, n, src, tag=f"loop/{T}/{sn}/{an}", V=[0, 1, 2, 3], K=10, T=2, cap=64))
+                # (2) terminating main
+                src2 = defs + pre + "x = d0.Setting\n" + body + tail + "db.Open = 5\n"
+                # terminating main: with a live call an out-of-line function may follow the main code (finding F-07)
+                fam2 = "W-F01j" if sn == "ternary" else ("W-F07" if live_call else "DEAD-TERM")
+                out.append(mk(fam2, n, src2, tag=f"term/{T}/{sn}/{an}", V=[0, 1, 2, 3], K=10, T=2, cap=64))
+                # (3) inside a function body
+                src3 = defs + pre + "def work(x):\n" + ind(body + tail + "db.Open = x\n") + "while True:\n    work(d0.Setting)\n    work(2)\n    yield_()\n"
+                out.append(mk(fam, n, src3, tag=f"func/{T}/{sn}/{an}", V=[0, 1, 2, 3], K=10, T=2, cap=64))
+                n += 1
+    return out
